@@ -221,6 +221,84 @@ Definition clear (c : config) (p : path) (w : world) : res unit * world :=
     then (Ok tt, do_rmtree w1 (c_tmp c)) else (Ok tt, w1)
   end.
 
+(* ---- histories: the constructor followed by reopen(...) / close(...) calls.
+   The object's attributes that decide paths: .path, .temp, .fext; the model
+   also remembers which mkdtemp directory holds the current path and how many
+   mkdtemp directories were made (the k-th is called "T<k>").
+   reopen = close(clear) under the OLD attributes, then the overrides, then
+   remake (unless the path exists, reuse is asked for and temp did not flip —
+   the D32c repair) ---- *)
+Record filer := { f_path : option path; f_temp : bool; f_fext : seg; f_tmp : path; f_next : nat }.
+
+Inductive hop :=
+| HReopen (temp : option bool) (fext : option seg) (clear reuse clean : bool)
+| HClose (clear : bool).
+
+Definition tmp_dir (c : config) (k : nat) : path := dirname (c_tmp c) ++ [[84; 48 + N.of_nat k]%N].
+
+Definition cfg_with (c : config) (temp clean : bool) (fext : seg) (tmp : path) : config :=
+  {| c_name := c_name c; c_base := c_base c; c_temp := temp; c_clean := clean; c_filed := c_filed c;
+     c_ext := c_ext c; c_fext := fext; c_head := c_head c; c_alt := c_alt c; c_tmp := tmp |}.
+
+(* _clearPath with the object's current attributes *)
+Definition clear_st (c : config) (st : filer) (w : world) : res unit * world :=
+  match f_path st with
+  | None => (Ok tt, w)
+  | Some p => clear (cfg_with c (f_temp st) false (f_fext st) (f_tmp st)) p w
+  end.
+
+(* the object right after a successful constructor *)
+Definition born (c : config) (p : path) : filer :=
+  {| f_path := Some p; f_temp := c_temp c; f_fext := c_fext c; f_tmp := c_tmp c;
+     f_next := if c_temp c then 1 else 0 |}.
+
+Definition run_hop (c : config) (st : filer) (h : hop) (w : world) : res unit * filer * world :=
+  match h with
+  | HClose cl =>
+    if cl then let (r, w') := clear_st c st w in (r, st, w') else (Ok tt, st, w)
+  | HReopen temp fext cl reuse clean =>
+    let (r0, w0) := if cl then clear_st c st w else (Ok tt, w) in
+    match r0 with
+    | Exc k => (Exc k, st, w0)
+    | Ok _ =>
+      let t := match temp with Some b => b | None => f_temp st end in
+      let fx := match fext with Some s => s | None => f_fext st end in
+      let reuse' := reuse && Bool.eqb t (f_temp st) in
+      let st1 := {| f_path := f_path st; f_temp := t; f_fext := fx; f_tmp := f_tmp st; f_next := f_next st |} in
+      let keep := match f_path st with
+                  | Some p => exists_ (w_fs w0) p && reuse'
+                  | None => false
+                  end in
+      if keep then
+        match f_path st with
+        | Some p =>
+          if c_filed c then
+            match ocfn w0 p with Ok w' => (Ok tt, st1, w') | Exc k => (Exc k, st1, w0) end
+          else (Ok tt, st1, w0)
+        | None => (Ok tt, st1, w0)
+        end
+      else
+        let c' := cfg_with c t clean fx (tmp_dir c (f_next st)) in
+        let nxt := if t then S (f_next st) else f_next st in
+        match remake c' w0 with
+        | (Ok p, w') =>
+          (Ok tt, {| f_path := Some p; f_temp := t; f_fext := fx;
+                     f_tmp := if t then c_tmp c' else f_tmp st; f_next := nxt |}, w')
+        | (Exc k, w') =>
+          (Exc k, {| f_path := f_path st; f_temp := t; f_fext := fx; f_tmp := f_tmp st; f_next := nxt |}, w')
+        end
+    end
+  end.
+
+Fixpoint run_hops (c : config) (st : filer) (hs : list hop) (w : world)
+  : list (res unit * option path * fsys) :=
+  match hs with
+  | [] => []
+  | h :: hs' =>
+    let '(r, st', w') := run_hop c st h w in
+    (r, f_path st', w_fs w') :: run_hops c st' hs' w'
+  end.
+
 (* ---- correspondence: Filer(...) on a sandbox snapshot, an optional owner
    step that creates a file (1) or directory (2) at .path, close(clear=True) ---- *)
 Record case := { k_cfg : config;
@@ -229,7 +307,9 @@ Record case := { k_cfg : config;
                  k_mid : fsys;                      (* snapshot after the constructor *)
                  k_owner : nat;
                  k_clear : res unit;                (* result of close(clear=True) *)
-                 k_post : fsys }.                   (* snapshot after it *)
+                 k_post : fsys;                     (* snapshot after it *)
+                 k_hops : list hop;                 (* history after the constructor (then no owner/clear phase) *)
+                 k_hobs : list (res unit * option path * fsys) }.   (* result, .path, snapshot after every hop *)
 
 Definition entry_eqb (a b : path * bool) : bool := path_eqb (fst a) (fst b) && Bool.eqb (snd a) (snd b).
 Definition subset_fs (a b : fsys) : bool := forallb (fun e => existsb (entry_eqb e) b) a.
@@ -245,18 +325,43 @@ Definition owner_step (n : nat) (p : path) (w : world) : world :=
 
 Definition unit_eqb (a b : unit) : bool := true.
 
+Definition hob_eqb (a b : res unit * option path * fsys) : bool :=
+  match a, b with
+  | (r, p, fs), (r', p', fs') => res_eqb unit_eqb r r' && option_eqb path_eqb p p' && same_fs fs fs'
+  end.
+
 Definition check_case (k : case) : bool :=
   let (r, w1) := remake (k_cfg k) {| w_fs := k_pre k; w_log := [] |} in
   res_eqb path_eqb r (k_open k) && same_fs (w_fs w1) (k_mid k) &&
   match r with
   | Exc _ => true
   | Ok p =>
-    let w2 := owner_step (k_owner k) p w1 in
-    let (r2, w3) := clear (k_cfg k) p w2 in
-    res_eqb unit_eqb r2 (k_clear k) && same_fs (w_fs w3) (k_post k)
+    match k_hops k with
+    | [] =>
+      let w2 := owner_step (k_owner k) p w1 in
+      let (r2, w3) := clear (k_cfg k) p w2 in
+      res_eqb unit_eqb r2 (k_clear k) && same_fs (w_fs w3) (k_post k)
+    | hs => list_eqb hob_eqb (run_hops (k_cfg k) (born (k_cfg k) p) hs w1) (k_hobs k)
+    end
   end.
 
 (* branch classifier *)
+Fixpoint hop_branches (c : config) (st : filer) (hs : list hop) (w : world) : list nat :=
+  match hs with
+  | [] => []
+  | h :: hs' =>
+    let '(r, st', w') := run_hop c st h w in
+    (match h, r with
+     | _, Exc _ => 29
+     | HClose true, _ => 27
+     | HClose false, _ => 28
+     | HReopen _ _ cl _ _, _ =>
+       if option_eqb path_eqb (f_path st) (f_path st') && Nat.eqb (length (w_log w)) (length (w_log w')) then 23
+       else if Bool.eqb (f_temp st) (f_temp st') then 24
+       else if f_temp st' then 25 else 26
+     end) :: hop_branches c st' hs' w'
+  end.
+
 Definition case_branches (k : case) : list nat :=
   let c := k_cfg k in
   let w := {| w_fs := k_pre k; w_log := [] |} in
@@ -271,7 +376,11 @@ Definition case_branches (k : case) : list nat :=
    | Ok p => if is_prefix (c_alt c) p && negb (c_temp c) then 18 else if cleaned then 19 else 20
    end] ++
   match r with
-  | Ok p => [match fst (clear c p (owner_step (k_owner k) p w1)) with Exc _ => 21 | Ok _ => 22 end]
+  | Ok p =>
+    match k_hops k with
+    | [] => [match fst (clear c p (owner_step (k_owner k) p w1)) with Exc _ => 21 | Ok _ => 22 end]
+    | hs => hop_branches c (born c p) hs w1
+    end
   | Exc _ => []
   end.
-Definition n_branches : nat := 23.
+Definition n_branches : nat := 30.
